@@ -175,6 +175,9 @@ type Run struct {
 	// it is part of the block's content and is therefore re-run when a crashed block is re-executed.
 	Hook func(r *Run, stage string)
 
+	// NodeOpts: this node's operator settings (every restart of the node uses them again)
+	NodeOpts NodeOpts
+
 	currentBlockTxBytes []deliveredTx
 }
 
@@ -229,9 +232,9 @@ func (r *Run) newChain() *Chain {
 		}
 	}
 	if r.CrashDB != nil {
-		return NewChain(r.CrashDB, bank)
+		return NewChainWith(r.CrashDB, bank, r.NodeOpts)
 	}
-	return NewChain(NewCrashDB(), bank)
+	return NewChainWith(NewCrashDB(), bank, r.NodeOpts)
 }
 
 func (r *Run) StartFromState(appState json.RawMessage, vals []ValInfo, initialHeight int64) *PanicInfo {
@@ -508,7 +511,7 @@ func (r *Run) ExportRestart() {
 	}
 	vals, now, blocks, txs, bank := c.Vals, c.Now, c.Blocks, c.Txs, c.Bank
 	r.CrashDB = NewCrashDB()
-	nc := NewChain(r.CrashDB, bank)
+	nc := NewChainWith(r.CrashDB, bank, r.NodeOpts)
 	nc.Vals = vals
 	nc.Blocks, nc.Txs = blocks, txs
 	if pi := nc.InitChain(appState, now, height); pi != nil {
